@@ -79,6 +79,7 @@ Require Import Ctpg.Proofs.LRGenWordsRefine.
 Require Import Ctpg.Proofs.GenWf.
 Require Import Ctpg.Proofs.GenClosure.
 Require Import Ctpg.Proofs.KernelWordsRefine.
+Require Import Ctpg.Proofs.ClosureWordsRefine.
 
 (* BELOW THE GENERATOR MIRROR (word-level mirror of namespace stdex, tied to the real templates by kernel-checked observations): for every size N and EVERY sequence of cbitset operations, test(j) answers membership in the set of indices the operations describe - the 64-bit word arithmetic (idx / 64, 1 << idx % 64, masks) is exact across word boundaries *)
 Theorem C01_item_and_lookahead_sets_are_sets_of_indices :
@@ -145,6 +146,12 @@ Theorem C01_an_out_of_range_symbol_throws_at_word_level :
   syms_in_rangeb exbad_g = false /\ (do x <- w_nterm_empty exbad_g;; w_nterm_first exbad_g x) = Throw /\ nterm_first exbad_g (nterm_empty exbad_g) = [[false; false]].
 Proof. exact @out_of_range_throws. Qed.
 Print Assumptions C01_an_out_of_range_symbol_throws_at_word_level.
+
+(* LINK (closure): the direct closure children of an item - FIRST of the rest of the rule as a cbitset, one test per term, the item's own lookahead when the rest is nullable and not in FIRST, with the short-circuit of the C++ `&&` - computed on words equal LRGen.closure_children for every grammar with in-range symbols *)
+Theorem C01_closure_children_on_words_are_the_models :
+  forall (g : grammar) (ne_w : cbitset) (nf_w : list cbitset) (ne : bset) (nf : list bset), cb_n ne_w = N.of_nat (nterm_count g) -> cb_abs ne_w = ne -> Forall (good g) nf_w -> map cb_abs nf_w = nf -> syms_in_range g -> forall i : item, it_t i < term_count g -> w_closure_children g ne_w nf_w i = Ok (closure_children g ne nf i).
+Proof. exact @w_closure_children_refines_in_range. Qed.
+Print Assumptions C01_closure_children_on_words_are_the_models.
 
 (* LINK (state identity): `states[i].kernel == kernel` on the item-index bitsets the real code builds with set(make_situation_idx(..)) decides exactly LRGen.same_items on the kernels as item lists - for every grammar and all kernels of in-range items (index injectivity + clean padding) *)
 Theorem C01_state_identity_on_words_is_the_models_same_items :
